@@ -67,6 +67,28 @@ THEOREMS = [
     # is handed (one row 1 :: t -> natoms :: t, never flattened); atoms[index] gives every property shape m :: trail for
     # every number m of selected atoms (m = 1, 0 included)
     'C06.viewBcast_keeps_trail', 'C06.getItem_keeps_shape',
+    # the source tie (lean/Atomman/Generated/AtomsSource.lean, regenerated from Atoms.py / System.py on every run): every
+    # generated definition - signatures and defaults, reserved keys, __intslice, the broadcast / guard / store decisions of
+    # PropertyDict.__setitem__, the three count blocks of Atoms.__init__, the dispatch of prop / atoms_prop / extend, the
+    # table test of prop_atype, natypes / padding tests / masses decision of System, the scale tests of System.__init__ and
+    # atoms_extend and the offset of the scaled write - equals the hand-written decision of the model
+    'C06.gen_sigs_eq_model', 'C06.gen_defaults_eq_model', 'C06.gen_intslice_eq_model', 'C06.gen_bcastDecision_eq_model',
+    'C06.gen_guards_eq_model', 'C06.gen_storeDecision_eq_model', 'C06.gen_countAtype_eq_model', 'C06.gen_countPos_eq_model',
+    'C06.gen_countNatoms_eq_model', 'C06.gen_propDispatch_eq_model', 'C06.gen_atomsPropDispatch_eq_model',
+    'C06.gen_patypeTableOk_eq_model', 'C06.gen_extendDispatch_eq_model', 'C06.gen_sysNatypesOf_eq_model',
+    'C06.gen_padTests_eq_model', 'C06.gen_massesSetDecision_eq_model', 'C06.gen_systemInit_eq_model',
+    'C06.gen_atomsExtend_eq_model', 'C06.gen_step_eq_model',
+    # ... and the functions of the model factor through those decisions
+    'C06.viewBcast_by_decision', 'C06.viewBcast_refuse', 'C06.viewGuard_refuses_iff', 'C06.atypeGuard_refuses_iff',
+    'C06.mkAtoms_defaults', 'C06.sysNatypes_by_decision', 'C06.symbolsGet_by_decision', 'C06.massesSet_by_decision',
+    'C06.pbcSet_by_decision', 'C06.countNatoms_core_none', 'C06.countNatoms_core_some', 'C06.atomsCount_by_blocks',
+    # the call layer (one Python call with its options -> the operation it performs): end-to-end invariant for any
+    # sequence of calls with any options, refusals of the option handling (exactly when, and nothing changes), a_id = index,
+    # non-bool scale refused, atoms_prop(scale=False) IS atoms.prop, System(scale=, safecopy=) / atoms_extend(scale=) flags
+    'C06.call_refused_unchanged', 'C06.inv_callWith', 'C06.inv_calls', 'C06.propCall_refuses_value_iff',
+    'C06.propCall_refuses_type_iff', 'C06.propCall_aid_alias', 'C06.atomsPropCall_aid_alias',
+    'C06.atomsPropCall_nonbool_refused', 'C06.atomsProp_unscaled_delegates', 'C06.systemCall_spec',
+    'C06.atomsExtendCall_spec',
 ]
 PARTIAL = {
     'refines (single statement abs(step s op) = specStep(abs s) op for every op)':
@@ -218,11 +240,533 @@ ASSUMPTIONS = [
 ]
 TRUSTED = [
     'Lean 4 kernel; axioms propext / Classical.choice / Quot.sound only',
-    'the hand-written model lean/Atomman/C06.lean is tied to atomman/core/Atoms.py and System.py only by the '
-    'differential correspondence of this module (no translator: the code is object-oriented numpy, not tables)',
+    'the hand-written model lean/Atomman/C06.lean is tied to atomman/core/Atoms.py and System.py (a) by the translator of '
+    'this module for signatures, defaults and every branch selection (Generated/AtomsSource.lean, gen_..._eq_model), with '
+    'the remaining statements of the translated bodies (the numpy calls inside the branches, the loops of extend / '
+    '__getitem__ / __setitem__ / __deepcopy__ / composition, the statement order of atoms_extend and System.__init__) pinned '
+    'by their normalised text (ast.unparse) inside the translator: an edit raises TranslationError; (b) by the differential '
+    'correspondence for what those statements do (mini-numpy)',
     'numpy itself (np.shares_memory, indexing, broadcasting) and the canonical state dump of harness/props/c06.py',
     'the independent record-per-atom oracle of search() (fractions.Fraction, no buffers / views)',
 ]
+
+
+# ----------------------------------------------------------------------------------------------
+# source tie: lean/Atomman/Generated/AtomsSource.lean regenerated from atomman/core/Atoms.py and System.py (module ast)
+# ----------------------------------------------------------------------------------------------
+GENERATED = ['AtomsSource']
+
+
+def translate():
+    """Regenerates from the CURRENT source the decisions the hand model depends on: signatures and defaults, the
+    reserved keys, the default atype / pos, and every branch selection of the anchored functions as a Lean function
+    (conditions, their order, which action each branch ends in).  Every statement of a translated body must be an `if`
+    (translated) or a statement of the vocabulary below, matched by its normalised text (`ast.unparse`): an edit either
+    changes a generated definition - and `Proofs/C06_Source.lean` (`gen_..._eq_model`) no longer compiles - or cannot be
+    read, which raises TranslationError (a broken tie: the failing-input search decides)."""
+    import ast
+    from ..translate import TranslationError
+
+    def fail(msg):
+        raise TranslationError('C06 source tie: ' + msg)
+
+    def methods_of(cls):
+        out = {}
+        for n in cls.body:
+            if isinstance(n, ast.FunctionDef):
+                name = n.name
+                for d in n.decorator_list:
+                    if isinstance(d, ast.Attribute) and d.attr == 'setter':
+                        name = n.name + '.setter'
+                if name in out:
+                    fail(f'{cls.name}.{name} defined twice')
+                out[name] = n
+        return out
+
+    def class_in(body, name, where):
+        c = [n for n in body if isinstance(n, ast.ClassDef) and n.name == name]
+        if len(c) != 1:
+            fail(f'class {name} not found exactly once in {where}')
+        return c[0]
+
+    atoms_cls = class_in(ast.parse(cm.source('atomman/core/Atoms.py')).body, 'Atoms', 'Atoms.py')
+    pd_cls = class_in(atoms_cls.body, 'PropertyDict', 'Atoms')
+    sys_cls = class_in(ast.parse(cm.source('atomman/core/System.py')).body, 'System', 'System.py')
+    ix_cls = class_in(sys_cls.body, '_AtomsIndexer', 'System')
+    M = {'Atoms': methods_of(atoms_cls), 'PropertyDict': methods_of(pd_cls), 'System': methods_of(sys_cls),
+         '_AtomsIndexer': methods_of(ix_cls)}
+
+    def fn(cls, name):
+        if name not in M[cls]:
+            fail(f'{cls}.{name} is missing')
+        return M[cls][name]
+
+    def body(cls, name):
+        b = fn(cls, name).body
+        if b and isinstance(b[0], ast.Expr) and isinstance(b[0].value, ast.Constant) and isinstance(b[0].value.value, str):
+            b = b[1:]
+        return list(b)
+
+    def lstr(s):
+        return '"' + s.replace('\\', '\\\\').replace('"', '\\"') + '"'
+
+    # ---- signatures ------------------------------------------------------------------------------
+    def sig(cls, name):
+        a = fn(cls, name).args
+        if a.posonlyargs or a.kwonlyargs or a.vararg:
+            fail(f'{cls}.{name}: unexpected kind of parameter')
+        names = [x.arg for x in a.args]
+        if not names or names[0] != 'self':
+            fail(f'{cls}.{name}: first parameter is not self')
+        names = names[1:]
+        defaults = [''] * (len(names) - len(a.defaults)) + [ast.unparse(d) for d in a.defaults]
+        return '[' + ', '.join(f'({lstr(n)}, {lstr(d)})' for n, d in zip(names, defaults)) + ']'
+
+    # ---- conditions ------------------------------------------------------------------------------
+    CMP = {ast.Eq: '=', ast.NotEq: '≠', ast.Lt: '<', ast.LtE: '≤', ast.Gt: '>', ast.GtE: '≥'}
+
+    class Cond:
+        def __init__(self, atoms, tests, where):
+            self.atoms, self.tests, self.where = atoms, tests, where
+
+        def term(self, node):
+            u = ast.unparse(node)
+            if u in self.atoms:
+                return self.atoms[u]
+            if isinstance(node, ast.Constant) and isinstance(node.value, int) and not isinstance(node.value, bool):
+                return (str(node.value), 'lit')
+            if isinstance(node, ast.UnaryOp) and isinstance(node.op, ast.USub) and isinstance(node.operand, ast.Constant) \
+                    and isinstance(node.operand.value, int):
+                return (f'(-{node.operand.value})', 'lit')
+            if isinstance(node, ast.Tuple) and not node.elts:
+                return ('[]', 'shape')
+            if isinstance(node, ast.Constant) and node.value is None:
+                return ('none', 'opt')
+            if isinstance(node, ast.Constant) and isinstance(node.value, str):
+                return (lstr(node.value), 'str')
+            fail(f'{self.where}: term not in the vocabulary: {u}')
+
+        def prop(self, node):
+            u = ast.unparse(node)
+            if u in self.tests:
+                return self.tests[u]
+            if isinstance(node, ast.BoolOp):
+                op = ' ∧ ' if isinstance(node.op, ast.And) else ' ∨ '
+                return '(' + op.join(self.prop(v) for v in node.values) + ')'
+            if isinstance(node, ast.UnaryOp) and isinstance(node.op, ast.Not):
+                return '(¬ ' + self.prop(node.operand) + ')'
+            if isinstance(node, ast.Compare) and len(node.ops) == 1:
+                op = node.ops[0]
+                a, ta = self.term(node.left)
+                b, tb = self.term(node.comparators[0])
+                if isinstance(op, (ast.Is, ast.IsNot)):
+                    if tb != 'opt' or ta != 'opt':
+                        fail(f'{self.where}: identity test outside the vocabulary: {u}')
+                    return f'({a} {"=" if isinstance(op, ast.Is) else "≠"} {b})'
+                if type(op) not in CMP:
+                    fail(f'{self.where}: comparison outside the vocabulary: {u}')
+                kinds = {ta, tb} - {'lit'}
+                if len(kinds) > 1:
+                    fail(f'{self.where}: comparison of {ta} with {tb}: {u}')
+                if kinds and next(iter(kinds)) in ('shape', 'str', 'opt') and not isinstance(op, (ast.Eq, ast.NotEq)):
+                    fail(f'{self.where}: ordering of {ta}: {u}')
+                return f'({a} {CMP[type(op)]} {b})'
+            fail(f'{self.where}: condition not in the vocabulary: {u}')
+
+    def tree(stmts, C, leaves, fall, where, env=None):
+        """decision tree of a statement list: `if` -> if-then-else (the statements after it are continued in both
+        branches), `raise X(...)` -> leaves['raise X'], any other statement must be in `leaves` by its text:
+        'skip' | ('ret', lean) | ('let', name, lean)."""
+        if not stmts:
+            if fall is None:
+                fail(f'{where}: control falls off the end')
+            return fall
+        st, rest = stmts[0], list(stmts[1:])
+        u = ast.unparse(st)
+        act = leaves.get(u)
+        if act is None and isinstance(st, ast.If):
+            c = C.prop(st.test)
+            return f'(if {c} then {tree(list(st.body) + rest, C, leaves, fall, where)} ' \
+                   f'else {tree(list(st.orelse) + rest, C, leaves, fall, where)})'
+        if act is None and isinstance(st, ast.Raise) and st.exc is not None:
+            e = st.exc.func if isinstance(st.exc, ast.Call) else st.exc
+            act = leaves.get('raise ' + ast.unparse(e))
+        if act is None and isinstance(st, ast.Pass):
+            act = 'skip'
+        if act is None:
+            fail(f'{where}: statement not in the vocabulary: {u[:160]}')
+        if act == 'skip':
+            return tree(rest, C, leaves, fall, where)
+        if act[0] == 'ret':
+            return act[1]
+        if act[0] == 'let':
+            return f'(let {act[1]} := {act[2]}; {tree(rest, C, leaves, fall, where)})'
+        fail(f'{where}: bad vocabulary entry for {u[:80]}')
+
+    def segment(stmts, first, last, where):
+        """the statements from the one whose text starts with `first` up to and including the one starting with `last`."""
+        us = [ast.unparse(s) for s in stmts]
+        i = [k for k, t in enumerate(us) if t.startswith(first)]
+        if len(i) != 1:
+            fail(f'{where}: start of segment not found exactly once: {first}')
+        j = [k for k, t in enumerate(us) if t.startswith(last) and k >= i[0]]
+        if len(j) != 1:
+            fail(f'{where}: end of segment not found exactly once: {last}')
+        return list(stmts[i[0]:j[0] + 1])
+
+    RAISES = {'raise ValueError': ('ret', '.error .value'), 'raise TypeError': ('ret', '.error .type')}
+    out = []
+    emit = out.append
+
+    # ---- Atoms.__intslice --------------------------------------------------------------------------
+    C = Cond({'intnum': ('intnum', 'int')}, {}, 'Atoms.__intslice')
+    emit('/-- `Atoms.__intslice`. -/')
+    emit('def intslice (intnum : Int) : Index := ' + tree(body('Atoms', '_Atoms__intslice') if '_Atoms__intslice' in M['Atoms']
+         else body('Atoms', '__intslice'), C, {
+             'return slice(intnum, None)': ('ret', '.slice (some intnum) none none'),
+             'return slice(intnum, intnum + 1)': ('ret', '.slice (some intnum) (some (intnum + 1)) none')},
+         None, 'Atoms.__intslice'))
+
+    # ---- PropertyDict.__setitem__ ------------------------------------------------------------------
+    b = body('PropertyDict', '__setitem__')
+    pre = b[:next((k for k, s in enumerate(b) if isinstance(s, ast.If)), len(b))]
+    if [ast.unparse(s) for s in pre] != ['host = self.__host', "try:\n    key = key.decode('UTF-8')\nexcept:\n    pass",
+                                         'value = np.asarray(value)']:
+        fail('PropertyDict.__setitem__: the statements before the broadcast changed')
+    ifs = b[len(pre):]
+    if len(ifs) != 3 or not all(isinstance(s, ast.If) for s in ifs):
+        fail('PropertyDict.__setitem__: expected broadcast / atype guard / store, three if statements')
+    C = Cond({'value.shape': ('shape', 'shape'), 'value.shape[0]': ('shape.headD 0', 'nat'), 'host.natoms': ('n', 'nat')},
+             {}, 'PropertyDict.__setitem__')
+    emit('/-- `PropertyDict.__setitem__`: "Broadcast if needed and allowed". -/')
+    emit('def bcastDecision (shape : List Nat) (n : Nat) : BcastDecision := ' + tree([ifs[0]], C, {
+        'value = np.array(np.broadcast_to(value, (host.natoms,) + value.shape))': ('ret', '.scalar'),
+        'value = np.array(np.broadcast_to(value, (host.natoms,) + value.shape[1:]))': ('ret', '.row'),
+        'raise ValueError': ('ret', '.refuse')}, '.keep', 'PropertyDict.__setitem__ (broadcast)'))
+
+    def guard(st, name, lenexpr, where):
+        if not (isinstance(st, ast.If) and not st.orelse and len(st.body) == 1 and isinstance(st.body[0], ast.Raise)
+                and ast.unparse(st.body[0]).startswith('raise ValueError(')):
+            fail(f'{where}: the atype guard is not `if ...: raise ValueError(...)`')
+        Cg = Cond({lenexpr: ('len', 'nat')}, {"key == 'atype'": 'isAtype', 'np.min(value) < 1': 'minLt1'}, where)
+        emit(f'/-- {where}: the `atype >= 1` guard raises ValueError. -/')
+        emit(f'def {name} (isAtype : Prop) (len : Nat) (minLt1 : Prop) : Prop := ' + Cg.prop(st.test))
+
+    guard(ifs[1], 'viewGuardRefuses', 'len(value)', 'PropertyDict.__setitem__')
+    store_else = ("super(Atoms.PropertyDict, self).__setitem__(key, value)",
+                  "try:\n    assert key not in dir(host)\n    super(Atoms, host).__setattr__(key, value)\nexcept:\n    pass")
+    if [ast.unparse(s) for s in ifs[2].orelse] != list(store_else):
+        fail('PropertyDict.__setitem__: the new-key branch changed')
+    C = Cond({}, {'key in self.keys()': '(has = true)'}, 'PropertyDict.__setitem__ (store)')
+    emit('/-- existing key: `self[key][:] = value`; new key: the array is bound (and mirrored as attribute). -/')
+    emit('def storeDecision (has : Bool) : StoreDecision := ' + tree([ifs[2]], C, {
+        'self[key][:] = value': ('ret', '.writeThrough'), store_else[0]: ('ret', '.bindNew')}, None,
+        'PropertyDict.__setitem__ (store)'))
+
+    # ---- Atoms.__init__ ----------------------------------------------------------------------------
+    b = body('Atoms', '__init__')
+    emit('/-- `Atoms.__init__`: (parameter, default), `self` / `**kwargs` left out. -/')
+    emit('def sigAtomsInit : Sig := ' + sig('Atoms', '__init__'))
+    if fn('Atoms', '__init__').args.kwarg is None or fn('Atoms', '__init__').args.kwarg.arg != 'kwargs':
+        fail('Atoms.__init__: **kwargs is gone')
+    seg = segment(b, 'if atype is not None:', 'if atype is not None:', 'Atoms.__init__')
+    C = Cond({'atype': ('atype', 'opt'), 'atype.ndim': ('(atype.getD []).length', 'nat')}, {}, 'Atoms.__init__ (atype)')
+    emit('/-- `Atoms.__init__`, "Check atype parameter values": natoms_atype from the shape of `atype` (if given). -/')
+    emit('def countAtype (atype : Option (List Nat)) : Except Err Int := ' + tree(seg, C, dict(RAISES, **{
+        'atype = np.asarray(atype)': 'skip', 'natoms_atype = 1': ('ret', '.ok 1'),
+        'natoms_atype = atype.shape[0]': ('ret', '.ok (((atype.getD []).headD 0 : Nat) : Int)'),
+        "atype = np.array([1], dtype='uint64')": 'skip'}), None, 'Atoms.__init__ (atype)'))
+    dflt = [s for s in ast.walk(seg[0]) if isinstance(s, ast.Assign) and ast.unparse(s).startswith('atype = np.array(')]
+    if len(dflt) != 1 or ast.unparse(dflt[0]) != "atype = np.array([1], dtype='uint64')":
+        fail('Atoms.__init__: default atype changed')
+    emit('def defaultAtypeShape : List Nat := [1]')
+    emit('def defaultAtypeValue : Int := 1')
+    seg = segment(b, 'if pos is not None:', 'if pos is not None:', 'Atoms.__init__')
+    C = Cond({'pos': ('pos', 'opt'), 'pos.ndim': ('(pos.getD []).length', 'nat'),
+              'pos.shape[0]': ('(pos.getD []).getD 0 0', 'nat'), 'pos.shape[1]': ('(pos.getD []).getD 1 0', 'nat')}, {},
+             'Atoms.__init__ (pos)')
+    emit('/-- `Atoms.__init__`, "Check pos parameter values": natoms_pos from the shape of `pos` (if given). -/')
+    emit('def countPos (pos : Option (List Nat)) : Except Err Int := ' + tree(seg, C, dict(RAISES, **{
+        'pos = np.asarray(pos)': 'skip', "if pos.dtype.kind in 'iub':\n    pos = pos.astype(float)": 'skip',
+        'natoms_pos = 1': ('ret', '.ok 1'),
+        'natoms_pos = pos.shape[0]': ('ret', '.ok (((pos.getD []).getD 0 0 : Nat) : Int)'),
+        "pos = np.zeros((1, 3), dtype='float64')": 'skip'}), None, 'Atoms.__init__ (pos)'))
+    emit('def defaultPosShape : List Nat := [1, 3]')
+    seg = segment(b, 'if natoms is not None:', 'if natoms is not None:', 'Atoms.__init__')
+    C = Cond({'natoms': ('natoms', 'opt'), 'natoms_atype': ('na', 'int'), 'natoms_pos': ('np', 'int')},
+             {'natoms_atype == natoms': '(some na = natoms)', 'natoms_pos == natoms': '(some np = natoms)'},
+             'Atoms.__init__ (natoms)')
+    emit('/-- `Atoms.__init__`, "Check natoms parameter values". -/')
+    emit('def countNatoms (natoms : Option Int) (na np : Int) : Except Err Int := ' + tree(seg, C, dict(RAISES, **{
+        'natoms = int(natoms)': 'skip', 'natoms = natoms_atype': ('ret', '.ok na'), 'natoms = natoms_pos': ('ret', '.ok np')}),
+        '.ok (natoms.getD 0)', 'Atoms.__init__ (natoms)'))
+    seg = segment(b, 'if safecopy:', 'if safecopy:', 'Atoms.__init__')
+    want = ("if safecopy:\n    self.view['atype'] = deepcopy(atype)\n    self.view['pos'] = deepcopy(pos)\n"
+            "    for key, value in kwargs.items():\n        self.view[key] = deepcopy(value)\n"
+            "else:\n    self.view['atype'] = atype\n    self.view['pos'] = pos\n"
+            "    for key, value in kwargs.items():\n        self.view[key] = value")
+    if ast.unparse(seg[0]) != want or b[-1] is not seg[0]:
+        fail('Atoms.__init__: the "Set properties" block changed')
+    emit('/-- the keys `Atoms.__init__` assigns first, in this order, before the keyword properties. -/')
+    emit('def reservedKeys : List String := ["atype", "pos"]')
+
+    # ---- __getitem__, __setitem__, __deepcopy__: statement pins -------------------------------------
+    def pin(cls, name, want, what):
+        got = [ast.unparse(s) for s in body(cls, name)]
+        if got != want:
+            k = next((i for i, (g, w) in enumerate(zip(got, want)) if g != w), min(len(got), len(want)))
+            fail(f'{cls}.{name}: statement {k} changed ({what}): {(got[k] if k < len(got) else "<missing>")[:160]}')
+
+    pin('Atoms', '__getitem__', ['view = OrderedDict()',
+        'if isinstance(index, (int, np.integer)):\n    index = self.__intslice(index)',
+        'for key in self.view.keys():\n    view[key] = self.view[key][index]', 'return Atoms(**view)'],
+        'model: getItem = atomsIndex, indexGet per key in key order, mkAtoms')
+    pin('Atoms', '__setitem__', [
+        "try:\n    assert isinstance(value, Atoms)\n    assert sorted(value.view.keys()) == sorted(self.view.keys())\n"
+        "except:\n    raise ValueError('Can only set Atoms with matching properties')",
+        'if isinstance(index, (int, np.integer)):\n    index = self.__intslice(index)',
+        'for key in self.view.keys():\n    newvalue = value.view[key]\n    if np.may_share_memory(self.view[key], newvalue):\n'
+        '        newvalue = newvalue.copy()\n    self.view[key][index] = newvalue'],
+        'model: setItem = sameKeys, atomsIndex, loop of assign from the donor column as it is before the write')
+    pin('Atoms', '__deepcopy__', ['d = OrderedDict()', "atype = deepcopy(self.view['atype'])", "pos = deepcopy(self.view['pos'])",
+        "for key in self.view:\n    if key not in ['atype', 'pos']:\n        d[key] = deepcopy(self.view[key])",
+        'return Atoms(atype=atype, pos=pos, **d)'], 'model: deepcopy = alloc per key, mkAtoms atype pos rest')
+    pin('Atoms', 'natypes', ["if np.min(self.atype) < 1:\n    raise ValueError('atype values < 1 not allowed')",
+                             'return int(np.max(self.atype))'], 'model: natypes')
+    pin('Atoms', '__setattr__', ['if not hasattr(self, name) or name in self.view:\n    self.view[name] = value\n'
+                                 'else:\n    super(Atoms, self).__setattr__(name, value)'], 'model: setv via attribute = viewSet')
+
+    # ---- Atoms.prop ----------------------------------------------------------------------------------
+    emit('def sigProp : Sig := ' + sig('Atoms', 'prop'))
+    opt_atoms = {'key': ('key', 'opt'), 'index': ('index', 'opt'), 'value': ('value', 'opt'), 'a_id': ('a_id', 'opt')}
+    b = body('Atoms', 'prop')
+    g = [s for s in ast.walk(fn('Atoms', 'prop')) if isinstance(s, ast.If) and ast.unparse(s.test).startswith("key == 'atype'")]
+    if len(g) != 1:
+        fail('Atoms.prop: the atype guard of the indexed write changed')
+    gtext = ast.unparse(g[0])
+    C = Cond(opt_atoms, {'isinstance(value, Atoms)': '(value.any CallVal.isAtoms = true)'}, 'Atoms.prop')
+    emit('/-- `Atoms.prop`: which action a call ends in. -/')
+    emit('def propDispatch (key : Option String) (index : Option Index) (value : Option CallVal) (a_id : Option Index) : '
+         'PropAction := ' + tree(b, C, {
+             'raise ValueError': ('ret', '.refuse .value'), 'raise TypeError': ('ret', '.refuse .type'),
+             'index = a_id': ('let', 'index', 'a_id'),
+             'return list(self.view.keys())': ('ret', '.keys'),
+             'return deepcopy(self[index])': ('ret', '.copyAtoms index'),
+             'return deepcopy(self.view[key])': ('ret', '.copyColumn key none'),
+             'return deepcopy(self.view[key][index])': ('ret', '.copyColumn key index'),
+             'self[:] = value': ('ret', '.setAtoms none value'),
+             'self[index] = value': ('ret', '.setAtoms index value'),
+             'self.view[key] = deepcopy(value)': ('ret', '.setColumn key value'),
+             gtext: 'skip',
+             'self.view[key][index] = value': ('ret', '.writeIndexed key index value')}, None, 'Atoms.prop'))
+    guard(g[0], 'propGuardRefuses', 'np.size(value)', 'Atoms.prop (indexed write)')
+
+    # ---- Atoms.prop_atype ----------------------------------------------------------------------------
+    emit('def sigPropAtype : Sig := ' + sig('Atoms', 'prop_atype'))
+    b = body('Atoms', 'prop_atype')
+    if len(b) != 1 or not isinstance(b[0], ast.If) or ast.unparse(b[0].test) != 'atype is None':
+        fail('Atoms.prop_atype: not `if atype is None: ... else: ...`')
+    tb = b[0].body
+    if len(tb) != 2 or ast.unparse(tb[0]) != 'value = np.asarray(value)' or not isinstance(tb[1], ast.If) \
+            or [ast.unparse(s) for s in tb[1].body] != ['self.view[key] = value[self.atype - 1]'] \
+            or len(tb[1].orelse) != 1 or not ast.unparse(tb[1].orelse[0]).startswith('raise ValueError('):
+        fail('Atoms.prop_atype: the all-types branch changed')
+    C = Cond({'len(value)': ('len', 'nat'), 'self.natypes': ('nt', 'nat')}, {}, 'Atoms.prop_atype')
+    emit('/-- `prop_atype(key, value)`: the table is accepted. -/')
+    emit('def patypeTableOk (len nt : Nat) : Prop := ' + C.prop(tb[1].test))
+    eb = b[0].orelse
+    if len(eb) != 1 or not isinstance(eb[0], ast.If) or ast.unparse(eb[0].test) != 'atype in self.atypes' \
+            or len(eb[0].orelse) != 1 or not ast.unparse(eb[0].orelse[0]).startswith('raise ValueError('):
+        fail('Atoms.prop_atype: the one-type branch is not `if atype in self.atypes: ... else: raise ValueError`')
+    sb = eb[0].body
+    want = ['if key not in self.prop():\n    self.view[key] = np.zeros((self.natoms,) + np.shape(value), dtype=np.asarray(value).dtype)',
+            None,
+            'self.view[key][self.atype == atype] = value']
+    if len(sb) != 3 or [ast.unparse(s) for s in sb][0::2] != want[0::2]:
+        fail('Atoms.prop_atype: the statements of the one-type branch changed (new key zeros / guard / mask assignment)')
+    guard(sb[1], 'patypeGuardRefuses', 'np.size(value)', 'Atoms.prop_atype (one type)')
+    emit('/-- the one-type branch of `prop_atype`, in order. -/')
+    emit('def patypeSteps : List String := ["new key: zeros((natoms,) + shape(value), dtype(value))", "atype guard", '
+         '"view[key][atype == t] = value"]')
+
+    # ---- Atoms.extend --------------------------------------------------------------------------------
+    emit('def sigExtend : Sig := ' + sig('Atoms', 'extend'))
+    b = body('Atoms', 'extend')
+    C = Cond({}, {'isinstance(value, (int, np.integer))': '(kind = ArgKind.int)',
+                  'isinstance(value, Atoms)': '(kind = ArgKind.atoms)'}, 'Atoms.extend')
+    emit('/-- `Atoms.extend`: what is extended by. -/')
+    emit('def extendDispatch (kind : ArgKind) : ExtAction := ' + tree(b, C, {
+        'raise TypeError': ('ret', '.refuse .type'),
+        'natoms = value': 'skip', 'atoms = Atoms(natoms=natoms)': ('let', 'donor', 'ExtDonor.fresh'),
+        'natoms = value.natoms': 'skip', 'atoms = value': ('let', 'donor', 'ExtDonor.given'),
+        'index = list(range(self.natoms)) + [0 for i in range(natoms)]': 'skip',
+        'newatoms = self[index]': 'skip',
+        'for prop in atoms.prop():\n    if prop not in newatoms.prop():\n        newatoms.view[prop] = '
+        'np.zeros((newatoms.natoms,) + atoms.view[prop][0].shape, dtype=atoms.view[prop].dtype)': 'skip',
+        'for prop in newatoms.prop():\n    if prop in atoms.prop():\n        newatoms.view[prop][self.natoms:] = atoms.view[prop]\n'
+        '    else:\n        newatoms.view[prop][self.natoms:] = np.zeros((natoms,) + self.view[prop][0].shape, '
+        'dtype=self.view[prop][0].dtype)': 'skip',
+        'return newatoms': ('ret', '.extend donor')}, None, 'Atoms.extend'))
+
+    # ---- System ----------------------------------------------------------------------------------------
+    emit('def sigSystemInit : Sig := ' + sig('System', '__init__'))
+    emit('def sigAtomsProp : Sig := ' + sig('System', 'atoms_prop'))
+    emit('def sigAtomsDf : Sig := ' + sig('System', 'atoms_df'))
+    emit('def sigAtomsExtend : Sig := ' + sig('System', 'atoms_extend'))
+
+    pin('System', 'natypes', ['try:\n    nsymbols = len(self.symbols)\nexcept:\n    nsymbols = 0',
+                              'if nsymbols > self.__atoms.natypes:\n    return len(self.symbols)\nelse:\n    return self.__atoms.natypes'],
+        'model: sysNatypes')
+    C = Cond({'nsymbols': ('nsymbols', 'nat'), 'self.__atoms.natypes': ('ant', 'nat')}, {}, 'System.natypes')
+    emit('/-- `System.natypes` from `len(self.symbols)` and the atoms\' natypes. -/')
+    emit('def sysNatypesOf (nsymbols ant : Nat) : Nat := ' + tree(body('System', 'natypes')[1:], C, {
+        'return len(self.symbols)': ('ret', 'nsymbols'), 'return self.__atoms.natypes': ('ret', 'ant')}, None, 'System.natypes'))
+    pin('System', 'atypes', ['return tuple(range(1, self.natypes + 1))'], 'model: sysAtypes')
+
+    def getter(name, attr, vocab, lean_name, params, setter_call):
+        b = body('System', name)
+        if len(b) != 2 or not isinstance(b[0], ast.If) or b[0].orelse \
+                or [ast.unparse(s) for s in b[0].body] != [setter_call] or ast.unparse(b[1]) != f'return self.__{attr}':
+            fail(f'System.{name} getter: not `if <short>: {setter_call}; return self.__{attr}`')
+        Cg = Cond(vocab, {}, f'System.{name} getter')
+        emit(f'/-- `System.{name}` getter: "Fill in missing values". -/')
+        emit(f'def {lean_name} ({params} : Nat) : Prop := ' + Cg.prop(b[0].test))
+
+    getter('symbols', 'symbols', {'len(self.__symbols)': ('stored', 'nat'), 'self.__atoms.natypes': ('ant', 'nat')},
+           'symbolsGetPads', 'stored ant', 'self.symbols = self.__symbols')
+    getter('masses', 'masses', {'len(self.__masses)': ('stored', 'nat'), 'self.natypes': ('snt', 'nat')},
+           'massesGetPads', 'stored snt', 'self.masses = self.__masses')
+    b = body('System', 'symbols.setter')
+    padtext = lambda nt: ('newvalue = [None for x in range(%s)]' % nt, 'for i in range(len(value)):\n    newvalue[i] = value[i]',
+                          'value = newvalue')
+    if len(b) != 3 or ast.unparse(b[0]) != 'value = aslist(value)' or not isinstance(b[1], ast.If) or b[1].orelse \
+            or [ast.unparse(s) for s in b[1].body] != list(padtext('self.__atoms.natypes')) \
+            or ast.unparse(b[2]) != 'self.__symbols = tuple(value)':
+        fail('System.symbols setter changed')
+    C = Cond({'len(value)': ('len', 'nat'), 'self.__atoms.natypes': ('ant', 'nat')}, {}, 'System.symbols setter')
+    emit('/-- `System.symbols` setter: pads with None. -/')
+    emit('def symbolsSetPads (len ant : Nat) : Prop := ' + C.prop(b[1].test))
+    b = body('System', 'masses.setter')
+    if len(b) != 4 or ast.unparse(b[0]) != 'value = aslist(value)' \
+            or ast.unparse(b[1]) != 'for i in range(len(value)):\n    if value[i] is not None:\n        value[i] = float(value[i])' \
+            or not isinstance(b[2], ast.If) or ast.unparse(b[3]) != 'self.__masses = tuple(value)':
+        fail('System.masses setter changed')
+    C = Cond({'len(value)': ('len', 'nat'), 'self.natypes': ('snt', 'nat')}, {}, 'System.masses setter')
+    pt = padtext('self.natypes')
+    emit('/-- `System.masses` setter: pad / refuse / keep. -/')
+    emit('def massesSetDecision (len snt : Nat) : MassesDecision := ' + tree([b[2]], C, {
+        pt[0]: 'skip', pt[1]: 'skip', pt[2]: ('ret', '.pad'), 'raise ValueError': ('ret', '.refuse')}, '.keep',
+        'System.masses setter'))
+    pin('System', 'pbc.setter', ['pbc = np.asarray(value, dtype=bool)', "assert pbc.shape == (3,), 'invalid pbc entry'",
+                                 'self.__pbc = pbc'], 'model: pbcSet')
+    emit('def pbcShape : List Nat := [3]')
+
+    # System.__init__: type check of scale, the order of the setters, the scale conversion
+    b = body('System', '__init__')
+    flat = [s for s in ast.walk(fn('System', '__init__'))]
+    chk = [s for s in flat if isinstance(s, ast.If) and ast.unparse(s.test) == 'not isinstance(scale, bool)']
+    if len(chk) != 1 or [ast.unparse(s) for s in chk[0].body] != ["raise TypeError('Invalid scale type')"] or chk[0].orelse:
+        fail('System.__init__: the type check of scale changed')
+    flag_tests = {'isinstance(scale, bool)': '(scale.isBool = true)', 'scale is True': '(scale = Flag.bool true)',
+                  'scale is False': '(scale = Flag.bool false)', 'scale': '(scale.truthy = true)',
+                  'isinstance(value, Atoms)': '(kind = ArgKind.atoms)'}
+    C = Cond({}, flag_tests, 'System.__init__')
+    emit('/-- `System.__init__`: "Invalid scale type". -/')
+    emit('def systemInitRefuses (scale : Flag) : Prop := ' + C.prop(chk[0].test))
+    seg = segment(b, 'self.__atoms = atoms', 'if scale', 'System.__init__')
+    want = ['self.__atoms = atoms', 'self.__box = box', 'self.pbc = pbc', 'self.__transformation = np.identity(3)',
+            'self.symbols = symbols', 'self.masses = masses']
+    if [ast.unparse(s) for s in seg[:-1]] != want or not isinstance(seg[-1], ast.If) or seg[-1].orelse \
+            or [ast.unparse(s) for s in seg[-1].body] != ["self.atoms_prop('pos', value=self.atoms.pos, scale=True)"]:
+        fail('System.__init__: the "Set properties" block changed')
+    emit('/-- the order in which `System.__init__` goes through the setters. -/')
+    emit('def systemInitOrder : List String := ["pbc", "symbols", "masses"]')
+    emit('/-- `System.__init__`: "Scale pos if needed". -/')
+    emit('def systemInitConverts (scale : Flag) : Prop := ' + C.prop(seg[-1].test))
+    cp = [s for s in flat if isinstance(s, ast.If) and ast.unparse(s) ==
+          'if atoms is None:\n    atoms = Atoms()\nelif safecopy:\n    atoms = deepcopy(atoms)']
+    if len(cp) != 1:
+        fail('System.__init__: the default / safecopy handling of atoms changed')
+    if ast.unparse(seg[-1].test) not in flag_tests:
+        fail('System.__init__: scale test not in the vocabulary')
+
+    # System.atoms_prop
+    b = body('System', 'atoms_prop')
+    C = Cond(opt_atoms, dict(flag_tests, **{'isinstance(value, Atoms)': '(value.any CallVal.isAtoms = true)'}), 'System.atoms_prop')
+    emit('/-- `System.atoms_prop`: which action a call ends in. -/')
+    emit('def atomsPropDispatch (key : Option String) (index : Option Index) (value : Option CallVal) (a_id : Option Index) '
+         '(scale : Flag) : AtomsPropAction := ' + tree(b, C, {
+             'raise ValueError': ('ret', '.refuse .value'), 'raise TypeError': ('ret', '.refuse .type'),
+             'return self.atoms.prop(key=key, index=index, a_id=a_id)': ('ret', '.delegate'),
+             'self.atoms.prop(key=key, index=index, value=value, a_id=a_id)': ('ret', '.delegate'),
+             'index = a_id': ('let', 'index', 'a_id'),
+             'newatoms = deepcopy(self.atoms)': 'skip', 'newatoms = deepcopy(self.atoms[index])': 'skip',
+             'newatoms.pos = self.box.position_cartesian_to_relative(newatoms.pos)': 'skip',
+             'return newatoms': ('ret', '.scaledAtoms index'),
+             'value = self.atoms.view[key]': 'skip', 'value = self.atoms.view[key][index]': 'skip',
+             'return self.box.position_cartesian_to_relative(value)': ('ret', '.scaledColumn key index'),
+             'value.pos = self.box.position_relative_to_cartesian(value.pos)': 'skip',
+             'self.atoms[:] = value': ('ret', '.scaledSetAtoms none value'),
+             'self.atoms[index] = value': ('ret', '.scaledSetAtoms index value'),
+             'value = self.box.position_relative_to_cartesian(value)': 'skip',
+             'self.atoms.view[key] = value': ('ret', '.scaledSetColumn key none value'),
+             'self.atoms.prop(key=key, index=index, value=value)': ('ret', '.scaledSetColumn key index value')},
+             None, 'System.atoms_prop'))
+
+    # System.atoms_extend
+    want = ['if safecopy:\n    value = deepcopy(value)',
+            "if scale is True and (not isinstance(value, Atoms)):\n    raise ValueError('scale can only be True for Atoms values')",
+            'if symbols is None:\n    symbols = self.symbols',
+            'if safecopy:\n    box = deepcopy(self.box)\nelse:\n    box = self.box',
+            'atoms = self.atoms.extend(value)',
+            'if scale:\n    atoms.pos[self.natoms:] = self.box.position_relative_to_cartesian(value.pos)',
+            'return System(atoms=atoms, box=box, pbc=self.pbc, symbols=symbols)']
+    b = body('System', 'atoms_extend')
+    got = [ast.unparse(s) for s in b]
+    if len(got) != len(want) or got[0] != want[0] or got[2:5] != want[2:5] or got[6] != want[6] \
+            or not isinstance(b[1], ast.If) or b[1].orelse or not ast.unparse(b[1].body[0]).startswith('raise ValueError(') \
+            or not isinstance(b[5], ast.If) or b[5].orelse or len(b[5].body) != 1:
+        fail('System.atoms_extend: statement order changed (copy, refusal, symbols read, box, extend, scaled write, System)')
+    C = Cond({}, flag_tests, 'System.atoms_extend')
+    emit('/-- `atoms_extend`: "scale can only be True for Atoms values". -/')
+    emit('def atomsExtendRefuses (scale : Flag) (kind : ArgKind) : Prop := ' + C.prop(b[1].test))
+    emit('/-- `atoms_extend`: the donor positions are box-relative and are converted. -/')
+    emit('def atomsExtendConverts (scale : Flag) : Prop := ' + C.prop(b[5].test))
+    wr = ast.unparse(b[5].body[0])
+    if wr == 'atoms.pos[self.natoms:] = self.box.position_relative_to_cartesian(value.pos)':
+        off = 'false'
+    elif wr == 'atoms.pos[value.natoms:] = self.box.position_relative_to_cartesian(value.pos)':
+        off = 'true'
+    else:
+        fail('System.atoms_extend: the scaled write changed: ' + wr[:120])
+    emit('/-- the scaled positions are written at `self.natoms` (`true`: at the donor\'s length). -/')
+    emit(f'def atomsExtendOffsetDonor : Bool := {off}')
+
+    # _AtomsIndexer
+    pin('_AtomsIndexer', '__getitem__', ['host = self.__host',
+        'return System(atoms=host.atoms[index], box=host.box, pbc=host.pbc, symbols=host.symbols)'], 'model: ixGet')
+    pin('_AtomsIndexer', '__setitem__', ['host = self.__host',
+        "if isinstance(value, Atoms):\n    host.atoms[index] = value\nelif isinstance(value, System):\n"
+        "    try:\n        assert np.allclose(host.box.vects, value.box.vects)\n        assert np.allclose(host.box.origin, value.box.origin)\n"
+        "    except:\n        warnings.warn('Atom assignment between two Systems with different boxes', UserWarning)\n"
+        "    host.atoms[index] = value.atoms\nelse:\n    raise ValueError('Can only set using Atoms or System objects')"],
+        'model: ixSet')
+    # composition: the loop and the reduction
+    pin('System', 'composition', ['sym_dict = {}',
+        'for i in range(self.natypes):\n    count = np.sum(self.atoms.atype == i + 1)\n    if count > 0:\n        symbol = self.symbols[i]\n'
+        '        if symbol is None:\n            return None\n        if symbol in sym_dict:\n            sym_dict[symbol] += count\n'
+        '        else:\n            sym_dict[symbol] = count',
+        'gcd = np.gcd.reduce(list(sym_dict.values()))', "composition = ''",
+        "for symbol in sorted(sym_dict):\n    count = sym_dict[symbol] // gcd\n    if sym_dict[symbol] > 0:\n        composition += symbol\n"
+        "        if count != 1:\n            composition += str(count)", 'return composition'], 'model: composition / compCounts / compString')
+
+    head = ('/- GENERATED by harness/props/c06.py (translate) from atomman/core/Atoms.py and atomman/core/System.py — do not edit.\n'
+            '   Signatures, defaults and every branch selection of the anchored functions; `Proofs/C06_Source.lean` proves each\n'
+            '   definition equal to the hand-written model of `Atomman/C06.lean` (`gen_…_eq_model`).  Statements of the bodies\n'
+            '   that are not branch selections are pinned by their normalised text in the translator (TranslationError otherwise). -/\n'
+            'import Atomman.C06\n\nnamespace Atomman.Generated.AtomsSource\nopen Atomman Atomman.C06\n\n')
+    return {'AtomsSource': head + '\n'.join(out) + '\n\nend Atomman.Generated.AtomsSource\n'}
+
 
 
 # property names of the random histories: plain ones, and names a special case keyed on the spelling would single out
@@ -428,6 +972,20 @@ class World:
         return out
 
 
+def flag_wire(op, name):
+    """a flag as the caller spells it: `b1` / `b0` a Python bool (also: not given, the default False of the signature),
+    `o1` / `o0` a truthy / falsy non-bool (`<name>_as` in int / np / float)."""
+    return ('o' if op.get(name + '_as') in ('int', 'np', 'float') else 'b') + ('1' if op.get(name) else '0')
+
+
+def args_wire(op, W, key=None, val='.'):
+    """`key index value a_id` of a prop / atoms_prop call as given (index=… / a_id=… / both)."""
+    ix = ix_wire(op.get('ix'))
+    aid = op.get('aid')
+    index, a_id = (ix, '.') if aid is None else (('.', ix) if aid == 'aid' else (ix, ix))
+    return f"{key if key is not None else '.'} {index} {val} {a_id}"
+
+
 def op_line(op, W):
     """wire form of an operation (handles replaced by model ids); None if a handle is unknown."""
     m = W.mid
@@ -439,16 +997,18 @@ def op_line(op, W):
                              lit_wire(op.get('pos')), str(len(ex))] + [kk + ' ' + lit_wire(v) for kk, v in ex])
         if k == 'setv':
             return f"op setv {m[op['o']]} {op['key']} {lit_wire(op['val'])}"
+        # prop / atoms_prop / System(...) / atoms_extend go over the wire as CALLS with their options as spelled: the
+        # option handling (index / a_id, kind of value, flag spellings, defaults) is done by the Lean model (Call.toOp)
         if k == 'pget':
-            return f"op pget {m[op['o']]} {op['key']} {ix_wire(op.get('ix'))}"
+            return f"call prop {m[op['o']]} {args_wire(op, W, op['key'])}"
         if k == 'pkeys':
-            return f"op pkeys {m[op['o']]}"
+            return f"call prop {m[op['o']]} . . . ."
         if k == 'pgeta':
-            return f"op pgeta {m[op['o']]} {ix_wire(op['ix'])}"
+            return f"call prop {m[op['o']]} {args_wire(op, W)}"
         if k == 'pset':
-            return f"op pset {m[op['o']]} {op['key']} {ix_wire(op.get('ix'))} {lit_wire(op['val'])}"
+            return f"call prop {m[op['o']]} {args_wire(op, W, op['key'], lit_wire(op['val']))}"
         if k == 'pseta':
-            return f"op pseta {m[op['o']]} {ix_wire(op.get('ix'))} {m[op['src']]}"
+            return f"call prop {m[op['o']]} {args_wire(op, W, None, 'A ' + str(m[op['src']]))}"
         if k == 'geti':
             return f"op geti {m[op['o']]} {ix_wire(op['ix'])}"
         if k == 'seti':
@@ -464,11 +1024,15 @@ def op_line(op, W):
         if k == 'natypes':
             return f"op natypes {m[op['o']]}"
         if k == 'mksys':
-            x = bool(op.get('scale') or op.get('safecopy'))
-            return ' '.join([f"op {'mksysx' if x else 'mksys'} {m[op['o']]}", cm.frs(op['box']), str(len(op['pbc']))]
+            x = bool(op.get('scale') or op.get('safecopy') or op.get('scale_as') or op.get('safecopy_as'))
+            if x:
+                return ' '.join([f"call system {m[op['o']]}", cm.frs(op['box']), str(len(op['pbc']))]
+                                + ['1' if b else '0' for b in op['pbc']]
+                                + [syms_wire(op.get('symbols')), masses_wire(op.get('masses')),
+                                   flag_wire(op, 'scale'), flag_wire(op, 'safecopy')])
+            return ' '.join([f"op mksys {m[op['o']]}", cm.frs(op['box']), str(len(op['pbc']))]
                             + ['1' if b else '0' for b in op['pbc']]
-                            + [syms_wire(op.get('symbols')), masses_wire(op.get('masses'))]
-                            + (['1' if op.get('scale') else '0', '1' if op.get('safecopy') else '0'] if x else []))
+                            + [syms_wire(op.get('symbols')), masses_wire(op.get('masses'))])
         if k in ('symget', 'massget', 'snatypes', 'satypes', 'scomp'):
             return f"op {k} {m[op['s']]}"
         if k == 'sstr':              # str(system) reads natoms, natypes, symbols, pbc: the model's natypes read
@@ -480,22 +1044,19 @@ def op_line(op, W):
         if k == 'pbcset':
             return ' '.join([f"op pbcset {m[op['s']]}", str(len(op['pbc']))] + ['1' if b else '0' for b in op['pbc']])
         if k == 'spget':
-            return f"op {'spgets' if op.get('scale') else 'spget'} {m[op['s']]} {op['key']} {ix_wire(op.get('ix'))}"
+            return f"call aprop {m[op['s']]} {args_wire(op, W, op['key'])} {flag_wire(op, 'scale')}"
         if k == 'spgeta':
-            if op.get('scale'):
-                return f"op spgetas {m[op['s']]} {ix_wire(op.get('ix'))}"
-            return f"op spgeta {m[op['s']]} {ix_wire(op['ix'])}"
+            return f"call aprop {m[op['s']]} {args_wire(op, W)} {flag_wire(op, 'scale')}"
         if k == 'sdcopy':
             return f"op sdcopy {m[op['s']]}"
         if k == 'spset':
-            return (f"op spset {m[op['s']]} {op['key']} {ix_wire(op.get('ix'))} {'1' if op['scale'] else '0'} "
-                    f"{lit_wire(op['val'])}")
+            return f"call aprop {m[op['s']]} {args_wire(op, W, op['key'], lit_wire(op['val']))} {flag_wire(op, 'scale')}"
         if k == 'spseta':
-            return f"op spseta {m[op['s']]} {ix_wire(op.get('ix'))} {'1' if op['scale'] else '0'} {m[op['src']]}"
+            return f"call aprop {m[op['s']]} {args_wire(op, W, None, 'A ' + str(m[op['src']]))} {flag_wire(op, 'scale')}"
         if k == 'sext':
             v = op['value']
             body = f"i {m[op['s']]} {v[1]}" if v[0] == 'i' else f"a {m[op['s']]} {m[v[1]]}"
-            return f"op sext {body} {'1' if op['scale'] else '0'} {syms_wire(op.get('symbols'))}"
+            return f"call aext {body} {flag_wire(op, 'scale')} {syms_wire(op.get('symbols'))}"
         if k == 'ixget':
             return f"op ixget {m[op['s']]} {ix_wire(op['ix'])}"
         if k == 'ixset':
@@ -1556,8 +2117,9 @@ def correspond(ctx):
             ops = [op for op in ops if op['op'] not in SEARCH_ONLY]
         if name.startswith('dtypes:'):
             ops = [op for op in ops if op['op'] not in SEARCH_ONLY]
-        if any(op['op'] in SEARCH_ONLY or op.get('aid') == 'both' for op in ops) or name.startswith('flags:strict:'):
-            continue        # DataFrames, len/str, the index+a_id refusal and the spelling of a flag are not in the model
+        if any(op['op'] in SEARCH_ONLY for op in ops):
+            continue        # DataFrames, len/str are not in the model (the index+a_id refusal and the spelling of a flag are:
+            #                 the calls go over the wire with their options, `Call.toOp` of the model does the option handling)
         nmat += 1
         e = run_fixed(drv, ops, stats)
         for op in ops:
